@@ -160,30 +160,42 @@ Qed.
 Lemma frame_id h : forall s0, sl_ok h s0 -> sl_bytes h s0 = sl_bytes h s0 /\ sl_ok h s0.
 Proof. auto. Qed.
 
+Theorem push_borrowed_gen h g s snew g' :
+  GInv h g -> R h g s -> sl_ok h snew -> (forall s0, In s0 (gslices g) -> sl_before s0 snew) ->
+  push_borrowed snew g = Some g' ->
+  GInv h g' /\ exists merged, R h g' (Pipe.push merged (sl_bytes h snew) s).
+Proof.
+  intros I Rs Hok Hbefore E. unfold push_borrowed in E.
+  pose proof (sl_len_pos h snew Hok) as Hpos. pose proof (sl_len_bytes h snew Hok) as Hlen.
+  destruct (sl_len snew =? 0) eqn:E0; [apply N.eqb_eq in E0; lia|].
+  set (bs := sl_bytes h snew) in *.
+  assert (Hne : bs <> []) by (intros Hnil; rewrite Hnil, nlen_nil in Hlen; lia).
+  match type of E with context [back ?L] => destruct (back L) as [a|]; [|discriminate] end.
+  match type of E with optimize ?G = _ => set (g1 := G) in * end.
+  destruct (appended_then_optimized h h g g1 g' snew bs (Pipe.slices s) (Pipe.plain bs) I (frame_id h) Hok eq_refl
+              Hbefore eq_refl E (r_bytes _ _ _ Rs) (map_fst_plain bs))
+    as (F' & P' & merged & Hb & _ & _).
+  destruct (optimize_spec _ _ E) as (Ec & El & Esz & Ecs & Ebr & _). subst g1. cbn [gcache_ glogical gcsize gcslices gbackrefs] in *.
+  split.
+  + constructor; [apply (gi_heap h g I)|rewrite Ec; apply (gi_cache h g I)|exact F'|exact P'].
+  + exists merged. unfold Pipe.push. destruct bs as [|b0 bs0] eqn:Ebs; [congruence|]. rewrite <- Ebs in *.
+    constructor; cbn [Pipe.slices Pipe.consumed Pipe.table Pipe.logical Pipe.taken].
+    * exact Hb.
+    * rewrite Ecs. apply (r_consumed _ _ _ Rs).
+    * rewrite Ebr. apply (r_table _ _ _ Rs).
+    * rewrite El, (r_logical _ _ _ Rs). unfold nlen in Hlen. lia.
+    * rewrite Esz. apply (r_taken _ _ _ Rs).
+Qed.
+
 Theorem push_borrowed_refines h g s bs g' :
   GInv h g -> R h g s -> push_borrowed (SExt bs) g = Some g' ->
   GInv h g' /\ exists merged, R h g' (Pipe.push merged bs s).
 Proof.
-  intros I Rs E. unfold push_borrowed in E. cbn [sl_len] in E.
-  destruct (nlen bs =? 0) eqn:E0.
-  - apply N.eqb_eq, nlen_zero in E0. subst bs. inversion E; subst g'. split; [exact I|]. exists false. exact Rs.
-  - apply N.eqb_neq in E0. assert (Hne : bs <> []) by (intros ->; apply E0; reflexivity).
-    match type of E with context [back ?L] => destruct (back L) as [a|]; [|discriminate] end.
-    match type of E with optimize ?G = _ => set (g1 := G) in * end.
-    assert (Hbefore : forall s0, In s0 (gslices g) -> sl_before s0 (SExt bs)) by (intros [? ? ?|?] _; exact Logic.I).
-    destruct (appended_then_optimized h h g g1 g' (SExt bs) bs (Pipe.slices s) (Pipe.plain bs) I (frame_id h) Hne eq_refl
-                Hbefore eq_refl E (r_bytes _ _ _ Rs) (map_fst_plain bs))
-      as (F' & P' & merged & Hb & _ & _).
-    destruct (optimize_spec _ _ E) as (Ec & El & Esz & Ecs & Ebr & _). subst g1. cbn [gcache_ glogical gcsize gcslices gbackrefs] in *.
-    split.
-    + constructor; [apply (gi_heap h g I)|rewrite Ec; apply (gi_cache h g I)|exact F'|exact P'].
-    + exists merged. unfold Pipe.push. destruct bs as [|b0 bs0] eqn:Ebs; [congruence|]. rewrite <- Ebs in *.
-      constructor; cbn [Pipe.slices Pipe.consumed Pipe.table Pipe.logical Pipe.taken].
-      * exact Hb.
-      * rewrite Ecs. apply (r_consumed _ _ _ Rs).
-      * rewrite Ebr. apply (r_table _ _ _ Rs).
-      * rewrite El, (r_logical _ _ _ Rs). cbn [sl_len]. unfold nlen. lia.
-      * rewrite Esz. apply (r_taken _ _ _ Rs).
+  intros I Rs E. destruct bs as [|b0 bs0] eqn:Ebs.
+  - cbn in E. inversion E; subst g'. split; [exact I|]. exists false. exact Rs.
+  - rewrite <- Ebs in *. assert (Hne : bs <> []) by (rewrite Ebs; discriminate).
+    apply (push_borrowed_gen h g s (SExt bs) g' I Rs Hne); [|exact E].
+    intros [? ? ?|?] _; exact Logic.I.
 Qed.
 
 (* OwningIovec::push on caller memory: whichever way the policy decides, the bytes are appended *)
@@ -499,3 +511,342 @@ Proof.
       destruct (Nat.eqb j i) eqn:Eji; [|reflexivity].
       apply Nat.eqb_eq in Eji. subst j. rewrite ET. reflexivity.
 Qed.
+
+(* ---- consumer side ---- *)
+Lemma fold_len_acc l a : fold_left (fun acc s => acc + sl_len s) l a = a + fold_len l.
+Proof.
+  unfold fold_len. revert a. induction l as [|s l IH]; intros a; cbn [fold_left]; [lia|].
+  rewrite IH, (IH (0 + sl_len s)). lia.
+Qed.
+Lemma fold_len_cons s l : fold_len (s :: l) = sl_len s + fold_len l.
+Proof. unfold fold_len at 1. cbn [fold_left]. rewrite fold_len_acc. lia. Qed.
+Lemma fold_len_nil : fold_len [] = 0. Proof. reflexivity. Qed.
+
+Lemma R_lengths h g s : R h g s -> length (Pipe.slices s) = length (gslices g).
+Proof. intros Rs. pose proof (f_equal (@length _) (r_bytes _ _ _ Rs)) as H. now rewrite !map_length in H. Qed.
+
+(* the byte count of a prefix of the slices is the same on both sides *)
+Lemma concat_len_related h : forall (ps : list (list Pipe.mbyte)) gs,
+  map (map fst) ps = map (sl_bytes h) gs -> Forall (sl_ok h) gs ->
+  length (concat ps) = N.to_nat (fold_len gs).
+Proof.
+  induction ps as [|p ps IH]; intros gs H F; destruct gs as [|g0 gs]; try discriminate; [reflexivity|].
+  cbn [map] in H. inversion H as [[H1 H2]]. inversion F as [|? ? F1 F2]; subst.
+  cbn [concat]. rewrite app_length, fold_len_cons, (IH gs H2 F2).
+  pose proof (f_equal (@length _) H1) as HL. rewrite map_length in HL.
+  pose proof (sl_len_bytes h g0 F1) as HB. unfold nlen in HB.
+  assert (length p = N.to_nat (sl_len g0)) by (transitivity (length (sl_bytes h g0)); [exact HL|lia]). lia.
+Qed.
+
+Lemma stable_count_related h g s n : R h g s -> stable_count g = Some n -> Pipe.stable_count s = N.to_nat n.
+Proof.
+  intros Rs E. unfold stable_count in E. unfold Pipe.stable_count. rewrite (r_table _ _ _ Rs), (r_consumed _ _ _ Rs), (R_lengths _ _ _ Rs).
+  destruct (gbackrefs g) as [|b rest]; cbn [map].
+  - inversion E. unfold nlen. lia.
+  - destruct (bidx b <? gcslices g) eqn:E1; [discriminate|]. apply N.ltb_ge in E1. inversion E. cbn [conv Pipe.br_idx]. unfold nlen. lia.
+Qed.
+
+Lemma Forall_skipn {A} (P : A -> Prop) k l : Forall P l -> Forall P (skipn k l).
+Proof. revert l. induction k as [|k IH]; intros l H; [exact H|]. destruct l; [constructor|]. inversion H; subst. now apply IH. Qed.
+Lemma Forall_firstn {A} (P : A -> Prop) k l : Forall P l -> Forall P (firstn k l).
+Proof. revert l. induction k as [|k IH]; intros l H; [constructor|]. destruct l; [constructor|]. inversion H; subst. constructor; auto. Qed.
+
+(* GlobalDeque::consume of whole slices, whatever the anchors do *)
+Lemma gd_consume_spec h g c g' k :
+  GInv h g -> gd_consume c g = Some (g', k) ->
+  k = N.min c (nlen (gslices g)) /\ gslices g' = nskipn k (gslices g) /\ gcslices g' = gcslices g + k /\
+  gcsize g' = gcsize g + fold_len (nfirstn k (gslices g)) /\ glogical g' = glogical g /\
+  gbackrefs g' = gbackrefs g /\ gcache_ g' = gcache_ g /\ GInv h g'.
+Proof.
+  intros I E. unfold gd_consume in E.
+  destruct (drain (N.min c (nlen (gslices g))) (ganchors g)) as [an|]; [|discriminate].
+  match type of E with (if ?c then _ else _) = _ => destruct c; [discriminate|] end.
+  inversion E; subst g' k. cbn [gslices gcslices gcsize glogical gbackrefs gcache_].
+  do 7 (split; [reflexivity|]).
+  constructor; cbn [gslices gcache_]; [apply (gi_heap h g I)|apply (gi_cache h g I)| |].
+  - apply Forall_skipn. apply (gi_slices h g I).
+  - apply pairwise_skipn. apply (gi_sorted h g I).
+Qed.
+
+Theorem consume_refines h g s count g' k :
+  GInv h g -> R h g s -> consume count g = Some (g', k) ->
+  GInv h g' /\ R h g' (fst (Pipe.consume (N.to_nat count) s)) /\ snd (Pipe.consume (N.to_nat count) s) = N.to_nat k.
+Proof.
+  intros I Rs E. unfold consume in E. destruct (stable_count g) as [n|] eqn:ES; [|discriminate].
+  destruct (gd_consume_spec _ _ _ _ _ I E) as (Ek & Esl & Ecs & Esz & El & Ebr & Ec & I').
+  split; [exact I'|].
+  pose proof (stable_count_related _ _ _ _ Rs ES) as HS.
+  assert (Hn : n <= nlen (gslices g)).
+  { unfold stable_count in ES. destruct (gbackrefs g) as [|b0 ?]; [inversion ES; lia|].
+    destruct (bidx b0 <? gcslices g); [discriminate|]. inversion ES. lia. }
+  unfold Pipe.consume. cbn [fst snd]. rewrite HS.
+  assert (Hk : Nat.min (N.to_nat count) (N.to_nat n) = N.to_nat k) by lia.
+  rewrite Hk. split; [|reflexivity].
+  constructor; cbn [Pipe.slices Pipe.consumed Pipe.table Pipe.logical Pipe.taken].
+  - rewrite Esl. unfold nskipn. rewrite <- !skipn_map. f_equal. apply (r_bytes _ _ _ Rs).
+  - rewrite Ecs, (r_consumed _ _ _ Rs). lia.
+  - rewrite Ebr. apply (r_table _ _ _ Rs).
+  - rewrite El. apply (r_logical _ _ _ Rs).
+  - rewrite Esz, (r_taken _ _ _ Rs).
+    rewrite (concat_len_related h (firstn (N.to_nat k) (Pipe.slices s)) (nfirstn k (gslices g))).
+    + lia.
+    + unfold nfirstn. rewrite <- !firstn_map. f_equal. apply (r_bytes _ _ _ Rs).
+    + apply Forall_firstn. apply (gi_slices h g I).
+Qed.
+
+Lemma stable_bytes_upto_spec l count : forall acc, acc <= count ->
+  stable_bytes_upto l count acc = N.min count (acc + fold_len l).
+Proof.
+  induction l as [|s l IH]; intros acc Ha; cbn [stable_bytes_upto].
+  - rewrite fold_len_nil. lia.
+  - rewrite fold_len_cons. destruct (count - acc <=? sl_len s) eqn:E.
+    + apply N.leb_le in E. lia.
+    + apply N.leb_gt in E. rewrite IH by lia. lia.
+Qed.
+
+Lemma sl_advance_bytes h s n : sl_ok h s -> n < sl_len s ->
+  sl_bytes h (sl_advance s n) = nskipn n (sl_bytes h s) /\ sl_ok h (sl_advance s n).
+Proof.
+  destruct s as [c off len|bs]; cbn [sl_ok sl_len sl_advance sl_bytes]; intros H Hn.
+  - split.
+    + rewrite <- nskipn_nskipn. unfold nfirstn, nskipn. rewrite skipn_firstn_comm. f_equal. lia.
+    + repeat split; try tauto; lia.
+  - split; [reflexivity|]. intros Hnil. apply (f_equal nlen) in Hnil. rewrite nlen_nskipn, nlen_nil in Hnil. lia.
+Qed.
+
+Lemma drop_bytes_zero (ps : list (list Pipe.mbyte)) : Pipe.drop_bytes 0 ps = (ps, 0%nat).
+Proof. destruct ps; reflexivity. Qed.
+
+Lemma cbb_related h : forall fuel g (ps : list (list Pipe.mbyte)) c g',
+  GInv h g -> map (map fst) ps = map (sl_bytes h) (gslices g) ->
+  consume_by_bytes fuel c g = Some g' ->
+  map (map fst) (fst (Pipe.drop_bytes (N.to_nat c) ps)) = map (sl_bytes h) (gslices g') /\
+  gcslices g' = gcslices g + N.of_nat (snd (Pipe.drop_bytes (N.to_nat c) ps)) /\ gcsize g' = gcsize g + c /\
+  glogical g' = glogical g /\ gbackrefs g' = gbackrefs g /\ gcache_ g' = gcache_ g /\ GInv h g'.
+Proof.
+  induction fuel as [|fuel IH]; intros g ps c g' I Hb E.
+  - cbn [consume_by_bytes] in E. destruct (c =? 0) eqn:E0; [|discriminate]. apply N.eqb_eq in E0. subst c.
+    inversion E; subst g'. cbn [N.to_nat]. rewrite drop_bytes_zero. cbn [fst snd].
+    split; [exact Hb|split; [lia|split; [lia|split; [reflexivity|split; [reflexivity|split; [reflexivity|exact I]]]]]].
+  - cbn [consume_by_bytes] in E. destruct (c =? 0) eqn:E0.
+    { apply N.eqb_eq in E0. subst c. inversion E; subst g'. cbn [N.to_nat]. rewrite drop_bytes_zero. cbn [fst snd].
+      split; [exact Hb|split; [lia|split; [lia|split; [reflexivity|split; [reflexivity|split; [reflexivity|exact I]]]]]]. }
+    apply N.eqb_neq in E0.
+    destruct (gslices g) as [|s0 t] eqn:Esl; [discriminate|].
+    destruct ps as [|p pt]; [discriminate|]. cbn [map] in Hb. inversion Hb as [[Hp Hpt]].
+    pose proof (gi_slices h g I) as F. rewrite Esl in F. inversion F as [|? ? F0 Ft]; subst.
+    assert (Lp : length p = N.to_nat (sl_len s0)).
+    { pose proof (f_equal (@length _) Hp) as HL. rewrite map_length in HL.
+      pose proof (sl_len_bytes h s0 F0) as HB. unfold nlen in HB.
+      transitivity (length (sl_bytes h s0)); [exact HL|lia]. }
+    destruct (N.to_nat c) as [|c'] eqn:Ec; [lia|]. cbn [Pipe.drop_bytes]. rewrite <- Ec.
+    destruct (N.min c (sl_len s0) =? sl_len s0) eqn:Ewhole.
+    + (* the whole front slice goes *)
+      apply N.eqb_eq in Ewhole.
+      destruct (gd_consume 1 g) as [[g1 k1]|] eqn:EG; [|discriminate].
+      destruct (gd_consume_spec _ _ _ _ _ I EG) as (Ek & Esl1 & Ecs & Esz & El & Ebr & Ecache & I1).
+      rewrite Esl in Ek, Esl1, Esz. rewrite nlen_cons in Ek. assert (Hk1 : k1 = 1) by lia. clear Ek. subst k1.
+      change (nskipn 1 (s0 :: t)) with t in Esl1. change (nfirstn 1 (s0 :: t)) with [s0] in Esz.
+      rewrite fold_len_cons, fold_len_nil in Esz.
+      replace (length p <=? N.to_nat c)%nat with true by (symmetry; apply Nat.leb_le; lia).
+      rewrite Ewhole in E.
+      assert (Hb1 : map (map fst) pt = map (sl_bytes h) (gslices g1)) by (rewrite Esl1; exact Hpt).
+      destruct (IH g1 pt (c - sl_len s0) g' I1 Hb1 E) as (A1 & A2 & A3 & A4 & A5 & A6 & A7).
+      replace (N.to_nat c - length p)%nat with (N.to_nat (c - sl_len s0)) by lia.
+      destruct (Pipe.drop_bytes (N.to_nat (c - sl_len s0)) pt) as [r k] eqn:ED. cbn [fst snd] in *.
+      split; [exact A1|split; [lia|split; [lia|split; [congruence|split; [congruence|split; [congruence|exact A7]]]]]].
+    + (* the front slice is advanced in place *)
+      apply N.eqb_neq in Ewhole. assert (Hlt : c < sl_len s0) by lia.
+      replace (N.min c (sl_len s0)) with c in E by lia.
+      inversion E; subst g'. clear E. cbn [gslices gcslices gcsize glogical gbackrefs gcache_].
+      replace (length p <=? N.to_nat c)%nat with false by (symmetry; apply Nat.leb_gt; lia).
+      cbn [fst snd].
+      destruct (sl_advance_bytes h s0 c F0 Hlt) as (Hbytes & Hok).
+      split; [|split; [lia|split; [reflexivity|split; [reflexivity|split; [reflexivity|split; [reflexivity|]]]]]].
+      * cbn [map]. f_equal; [|exact Hpt]. rewrite Hbytes, <- Hp. unfold nskipn. now rewrite skipn_map.
+      * constructor; cbn [gslices gcache_]; [apply (gi_heap h g I)|apply (gi_cache h g I)|constructor; assumption|].
+        pose proof (gi_sorted h g I) as PS. rewrite Esl in PS. eapply pairwise_head_change; [exact PS|].
+        intros b Hb0. destruct s0 as [c0 o0 l0|bs0]; cbn [sl_advance]; destruct b as [cb ob lb|bb]; cbn [sl_before] in *; auto.
+        intros Hc. specialize (Hb0 Hc). cbn [sl_len] in Hlt. lia.
+Qed.
+
+Theorem advance_refines h g s count g' n :
+  GInv h g -> R h g s -> advance_slices count g = Some (g', n) ->
+  GInv h g' /\ R h g' (fst (Pipe.advance (N.to_nat count) s)) /\ snd (Pipe.advance (N.to_nat count) s) = N.to_nat n.
+Proof.
+  intros I Rs E. unfold advance_slices, stable_slices in E.
+  destruct (stable_count g) as [sc|] eqn:ES; [|discriminate].
+  match type of E with context [consume_by_bytes ?f ?c g] => destruct (consume_by_bytes f c g) as [gx|] eqn:EC; [|discriminate] end.
+  inversion E; subst gx n. clear E.
+  rewrite stable_bytes_upto_spec in * by lia. rewrite N.add_0_l in *.
+  pose proof (stable_count_related _ _ _ _ Rs ES) as HS.
+  assert (Hstable : length (Pipe.stable_bytes s) = N.to_nat (fold_len (nfirstn sc (gslices g)))).
+  { unfold Pipe.stable_bytes, Pipe.stable_slices. rewrite map_length, HS.
+    apply (concat_len_related h).
+    - unfold nfirstn. rewrite <- !firstn_map. f_equal. apply (r_bytes _ _ _ Rs).
+    - apply Forall_firstn. apply (gi_slices h g I). }
+  set (n := N.min count (fold_len (nfirstn sc (gslices g)))) in *.
+  destruct (cbb_related h _ g (Pipe.slices s) n g' I (r_bytes _ _ _ Rs) EC) as (A1 & A2 & A3 & A4 & A5 & A6 & A7).
+  unfold Pipe.advance. rewrite Hstable.
+  replace (Nat.min (N.to_nat count) (N.to_nat (fold_len (nfirstn sc (gslices g))))) with (N.to_nat n) by (unfold n; lia).
+  destruct (Pipe.drop_bytes (N.to_nat n) (Pipe.slices s)) as [r k] eqn:ED. cbn [fst snd] in *.
+  split; [exact A7|]. split; [|reflexivity].
+  constructor; cbn [Pipe.slices Pipe.consumed Pipe.table Pipe.logical Pipe.taken].
+  - exact A1.
+  - rewrite A2, (r_consumed _ _ _ Rs). lia.
+  - rewrite A5. apply (r_table _ _ _ Rs).
+  - rewrite A4. apply (r_logical _ _ _ Rs).
+  - rewrite A3, (r_taken _ _ _ Rs). lia.
+Qed.
+
+(* ---- operations that do not touch the buffered bytes ---- *)
+Lemma R_same_fields h h' g g' s :
+  R h g s -> map (sl_bytes h') (gslices g') = map (sl_bytes h) (gslices g) ->
+  gcslices g' = gcslices g -> gbackrefs g' = gbackrefs g -> glogical g' = glogical g -> gcsize g' = gcsize g ->
+  R h' g' s.
+Proof.
+  intros Rs Hb H1 H2 H3 H4. constructor.
+  - rewrite Hb. apply (r_bytes _ _ _ Rs).
+  - rewrite H1. apply (r_consumed _ _ _ Rs).
+  - rewrite H2. apply (r_table _ _ _ Rs).
+  - rewrite H3. apply (r_logical _ _ _ Rs).
+  - rewrite H4. apply (r_taken _ _ _ Rs).
+Qed.
+
+Lemma set_cache_refines h g s k : GInv h g -> R h g s -> cache_ok h k -> GInv h (set_cache k g) /\ R h (set_cache k g) s.
+Proof.
+  intros I Rs Hk. split.
+  - constructor; cbn [set_cache gslices gcache_]; [apply (gi_heap h g I)|exact Hk|apply (gi_slices h g I)|apply (gi_sorted h g I)].
+  - eapply R_same_fields; eauto.
+Qed.
+
+Lemma push_anchor_refines h g s a : GInv h g -> R h g s -> GInv h (push_anchor a g) /\ R h (push_anchor a g) s.
+Proof.
+  intros I Rs. split.
+  - constructor; cbn [push_anchor gslices gcache_]; [apply (gi_heap h g I)|apply (gi_cache h g I)|apply (gi_slices h g I)|apply (gi_sorted h g I)].
+  - eapply R_same_fields; eauto.
+Qed.
+
+Lemma clear_refines h g s : GInv h g -> GInv h (clear g) /\ R h (clear g) (Pipe.clear s).
+Proof.
+  intros I. split.
+  - constructor; cbn [clear gslices gcache_]; [apply (gi_heap h g I)|apply (gi_cache h g I)|constructor|apply pairwise_nil].
+  - constructor; reflexivity.
+Qed.
+
+(* a heap that only grew by appends and new chunks: every slice of g reads as before *)
+Lemma frame_refines h h' g s k :
+  GInv h g -> R h g s -> heap_ok h' -> cache_ok h' k ->
+  (forall s0, sl_ok h s0 -> sl_bytes h' s0 = sl_bytes h s0 /\ sl_ok h' s0) ->
+  GInv h' (set_cache k g) /\ R h' (set_cache k g) s.
+Proof.
+  intros I Rs Hh Hk Hframe.
+  pose proof (gi_slices h g I) as F. rewrite Forall_forall in F.
+  split.
+  - constructor; cbn [set_cache gslices gcache_]; [exact Hh|exact Hk| |apply (gi_sorted h g I)].
+    rewrite Forall_forall. intros s0 Hin. apply Hframe. now apply F.
+  - eapply R_same_fields; eauto. cbn [set_cache gslices]. apply map_ext_in. intros s0 Hin. apply Hframe. now apply F.
+Qed.
+
+Theorem ensure_refines h g s n h' k' :
+  GInv h g -> R h g s -> ensure_capacity h (gcache_ g) n = Some (h', k') ->
+  GInv h' (set_cache (Some k') g) /\ R h' (set_cache (Some k') g) s.
+Proof.
+  intros I Rs E.
+  destruct (ensure_capacity_spec _ _ _ _ _ (gi_cache h g I) (gi_heap h g I) E) as (Hk & Hh & _ & Hcase).
+  apply (frame_refines h h' g s (Some k') I Rs Hh Hk).
+  destruct Hcase as [(-> & _)|(cap & -> & _ & _)]; [auto|]. intros s0 H0. now apply sl_bytes_new_chunk.
+Qed.
+
+(* ---- anchored input ---- *)
+Theorem anchored_refines h g s bs h' g' :
+  GInv h g -> R h g s -> anchored h bs g = Some (h', g') ->
+  GInv h' g' /\ exists merged, R h' g' (Pipe.push merged bs s).
+Proof.
+  intros I Rs E. unfold anchored in E. destruct bs as [|b0 bs0] eqn:Ebs.
+  - cbn in E. inversion E; subst h' g'.
+    destruct (set_cache_refines h g s (gcache_ g) I Rs (gi_cache h g I)) as (I' & R'). split; [exact I'|]. exists false. exact R'.
+  - rewrite <- Ebs in *. assert (Hne : bs <> []) by (rewrite Ebs; discriminate).
+    rewrite (arena_read_n_as_copy h (gcache_ g) bs (gi_cache h g I) (gi_heap h g I) Hne) in E.
+    destruct (arena_copy h (gcache_ g) bs None) as [[[[[hp kp] sp] o'] f']|] eqn:EA; [|discriminate].
+    destruct (arena_copy_spec _ _ _ _ _ _ _ _ _ (gi_cache h g I) (gi_heap h g I) EA)
+      as (_ & Hk' & Hh' & _ & Hframe & Hok & Hbytes & Hle & Enew & Hend & _ & _).
+    destruct (frame_refines h hp g s (Some kp) I Rs Hh' Hk' Hframe) as (I1 & R1).
+    pose proof (sl_len_pos hp sp Hok) as Hpos.
+    destruct (sl_len sp =? 0) eqn:E0; [apply N.eqb_eq in E0; lia|].
+    destruct (push hp sp (set_cache (Some kp) g)) as [[h2 g2]|] eqn:EP; [|discriminate].
+    inversion E; subst h' g'. clear E.
+    assert (Hpush : GInv h2 g2 /\ exists merged, R h2 g2 (Pipe.push merged bs s)).
+    { unfold push in EP.
+      match type of EP with (if ?c then _ else _) = _ => destruct c end.
+      - rewrite Hbytes in EP. eapply push_copy_refines; eauto.
+      - destruct (push_borrowed sp (set_cache (Some kp) g)) as [gx|] eqn:EB; [|discriminate]. inversion EP; subst h2 gx.
+        rewrite <- Hbytes. apply (push_borrowed_gen hp (set_cache (Some kp) g) s sp g2 I1 R1 Hok); [|exact EB].
+        cbn [set_cache gslices]. intros s0 Hin. rewrite Enew. exact (in_sl_before_new h g kp (nlen bs) s0 I Hend Hin). }
+    destruct Hpush as (I2 & merged & R2).
+    destruct (push_anchor_refines h2 g2 _ {| acount := 1; achunk := Some (kchunk kp) |} I2 R2) as (I3 & R3).
+    split; [exact I3|]. exists merged. exact R3.
+Qed.
+
+(* ---- Read: one advance per front slice; on the pipe side a sequence of reads ---- *)
+Fixpoint pipe_reads (ws : list nat) (s : Pipe.st) : Pipe.st * list N :=
+  match ws with
+  | [] => (s, [])
+  | w :: r => let '(s1, b1) := Pipe.read w s in let '(s2, b2) := pipe_reads r s1 in (s2, b1 ++ b2)
+  end.
+
+Lemma read_front h g s s0 rest w :
+  GInv h g -> R h g s -> stable_slices g = Some (s0 :: rest) -> w <= sl_len s0 ->
+  snd (Pipe.read (N.to_nat w) s) = nfirstn w (sl_bytes h s0).
+Proof.
+  intros I Rs ES Hw. unfold stable_slices in ES. destruct (stable_count g) as [sc|] eqn:EC; [|discriminate].
+  inversion ES as [ES']. clear ES.
+  pose proof (stable_count_related _ _ _ _ Rs EC) as HS.
+  destruct (gslices g) as [|g0 gt] eqn:Eg; [unfold nfirstn in ES'; rewrite firstn_nil in ES'; discriminate|].
+  assert (Hsc : (0 < N.to_nat sc)%nat).
+  { destruct (N.to_nat sc) eqn:En; [|lia]. unfold nfirstn in ES'. rewrite En in ES'. discriminate. }
+  assert (g0 = s0).
+  { unfold nfirstn in ES'. destruct (N.to_nat sc); [lia|]. cbn [firstn] in ES'. now inversion ES'. }
+  subst g0.
+  pose proof (r_bytes _ _ _ Rs) as Hb. rewrite Eg in Hb. destruct (Pipe.slices s) as [|p0 pt] eqn:Ep; [discriminate|].
+  cbn [map] in Hb. inversion Hb as [[Hp0 Hpt]].
+  assert (Ok0 : sl_ok h s0).
+  { pose proof (gi_slices h g I) as F. rewrite Eg in F. now inversion F. }
+  pose proof (sl_len_bytes h s0 Ok0) as HL. unfold nlen in HL.
+  unfold Pipe.read. cbn [snd]. unfold Pipe.stable_bytes, Pipe.stable_slices. rewrite HS, Ep.
+  destruct (N.to_nat sc) as [|sc'] eqn:En; [lia|]. cbn [firstn concat]. unfold Pipe.mbyte in *. rewrite map_app.
+  assert (Lp0 : length (map fst p0) = length (sl_bytes h s0)) by now rewrite Hp0.
+  rewrite app_length, Lp0.
+  replace (Nat.min (N.to_nat w) (length (sl_bytes h s0) + length (map fst (concat (firstn sc' pt))))) with (N.to_nat w) by lia.
+  unfold nfirstn. rewrite firstn_app, Lp0. replace (N.to_nat w - length (sl_bytes h s0))%nat with 0%nat by lia.
+  cbn [firstn]. now rewrite app_nil_r, Hp0.
+Qed.
+
+Lemma read_loop_refines h : forall fuel n g s acc g' out,
+  GInv h g -> R h g s -> read_loop fuel h n g acc = Some (g', out) ->
+  GInv h g' /\ exists ws, R h g' (fst (pipe_reads ws s)) /\ out = acc ++ snd (pipe_reads ws s).
+Proof.
+  induction fuel as [|fuel IH]; intros n g s acc g' out I Rs E; cbn [read_loop] in E.
+  - assert (g' = g /\ out = acc) by (destruct (n =? 0); inversion E; auto). destruct H as (-> & ->).
+    split; [exact I|]. exists []. cbn. split; [exact Rs|now rewrite app_nil_r].
+  - destruct (n =? 0).
+    { inversion E; subst g' out. split; [exact I|]. exists []. cbn. split; [exact Rs|now rewrite app_nil_r]. }
+    destruct (stable_slices g) as [[|s0 rest]|] eqn:ES; [| |discriminate].
+    { inversion E; subst g' out. split; [exact I|]. exists []. cbn. split; [exact Rs|now rewrite app_nil_r]. }
+    destruct (advance_slices (N.min (sl_len s0) n) g) as [[g1 k1]|] eqn:EA; [|discriminate].
+    destruct (advance_refines _ _ _ _ _ _ I Rs EA) as (I1 & R1 & _).
+    pose proof (read_front h g s s0 rest (N.min (sl_len s0) n) I Rs ES ltac:(lia)) as Hfront.
+    destruct (IH _ _ _ _ _ _ I1 R1 E) as (I' & ws & R' & Hout).
+    split; [exact I'|]. exists (N.to_nat (N.min (sl_len s0) n) :: ws). cbn [pipe_reads].
+    destruct (Pipe.read (N.to_nat (N.min (sl_len s0) n)) s) as [s1 b1] eqn:ER.
+    cbn [snd] in Hfront. subst b1.
+    assert (Es1 : s1 = fst (Pipe.advance (N.to_nat (N.min (sl_len s0) n)) s)) by (unfold Pipe.read in ER; now inversion ER).
+    subst s1.
+    destruct (pipe_reads ws (fst (Pipe.advance (N.to_nat (N.min (sl_len s0) n)) s))) as [s2 b2] eqn:EP. cbn [fst snd] in *.
+    split; [exact R'|]. rewrite Hout, app_assoc. reflexivity.
+Qed.
+
+Theorem read_refines h g s n g' out :
+  GInv h g -> R h g s -> read h n g = Some (g', out) ->
+  GInv h g' /\ exists ws, R h g' (fst (pipe_reads ws s)) /\ out = snd (pipe_reads ws s).
+Proof. intros I Rs E. unfold read in E. exact (read_loop_refines h _ _ _ _ _ _ _ I Rs E). Qed.
